@@ -173,14 +173,14 @@ def run(tier):
 
     # ---------------- Singleton
     r, edges = c.model(SPEC, "MCSingleton", "MCSingleton_%s.cfg" % tier, must_take=SGL_STEPS)
-    for extra in (["MCSingleton_n4.cfg"] if quick else ["MCSingleton_n4.cfg", "MCSingleton_n5.cfg"]):
+    for extra in (["MCSingleton_n4.cfg"] if quick else ["MCSingleton_n4.cfg", "MCSingleton_n5.cfg", "MCSingleton_n6.cfg"]):
         c.model(SPEC, "MCSingleton", extra, want_edges=False, must_take=SGL_STEPS)
     by_n = {}
     for e in edges:
         by_n.setdefault(json.loads(e[0])["n"], []).append(e)
     allp = []
     for k in sorted(by_n):
-        limit = (1500 if k <= 2 else 500) if quick else (20000 if k <= 2 else 8000)
+        limit = (1500 if k <= 2 else 500) if quick else (20000 if k <= 2 else 15000)
         paths, total = behaviours(by_n[k], limit, rng)
         c.notes.append("Singleton n=%d: %d maximal behaviours in the model, %d forced onto the code%s" % (
             k, total, len(paths), "" if len(paths) == total else " (seeded uniform sample)"))
